@@ -165,6 +165,7 @@ class Explorer:
         self.work = []
         self.max_paths = max_paths
         self.stats = {"paths": 0, "feas_checks": 0, "cut": 0}
+        self.unsupported = []       # messages of paths that left the supported subset (the other paths are still explored)
 
     def push(self, prefix):
         self.work.append(prefix)
@@ -180,6 +181,13 @@ class Explorer:
                 fn(p)
             except PathEnd:
                 self.stats["cut"] += 1
+            except Unsupported as e:
+                # this path cannot be decided; what the other paths refute is still refuted
+                p.ghost["outcome"] = "unsupported"
+                if str(e) not in self.unsupported:
+                    self.unsupported.append(str(e))
+                if len(self.unsupported) > 50:
+                    raise
             paths.append(p)
             self.stats["paths"] += 1
             if self.stats["paths"] > self.max_paths:
